@@ -16,7 +16,7 @@ EXPLANATION = (
     'size). gct: genCompleteTypes on a symbolic arbitrary string. mut: real parseMessage on valid base messages '
     'with one byte (position enumerated) replaced by a SYMBOLIC value; trunc: every truncation length (symbolic).')
 BOUNDS = {
-    'quick': 'unm: 38 hostile signatures x 10 symbolic data bytes (7 for signature-typed); var: 12 hostile variant signatures x 6 symbolic bytes; '
+    'quick': 'unm: 38 hostile signatures x 10 symbolic data bytes (7 for signature-typed), little-endian, 14 of them also big-endian; var: 12 hostile variant signatures x 6 symbolic bytes; '
              'gct: strings of length <= 3 over all characters; mut: 2 base messages (every byte position); trunc: 5 base messages',
     'thorough': 'unm: x 14 bytes and both byte orders; gct: length <= 5; mut: 5 base messages incl. big-endian',
 }
@@ -34,6 +34,52 @@ HOSTILE = ['a()', 'a{}', 'a(())', 'aa()', 'a(a())', 'ay', 'aay', 'aaay', 'aaaaaa
            'v', 'vv', '(v)', 'a(v)', 's', 'g', 'o', 'ax', 'a(x)', 'at', 'ad', 'ab', 'ah', 'a(iii)', 'yyyyuua(yv)',
            '(' * 20 + 'y' + ')' * 20, 'a' * 30 + 'y', 'a(' * 10 + 'y' + ')' * 10]
 VARIANT_SIGS = ['a()', 'a{}', 'aay', '(', '', 'a', 'ay', 'a(y)', 'z', 'a(())', 'yy', 'ai']
+
+
+LENS_CASES = [('as', [['abc', 'de']]), ('as', [['abc', 'de', 'f']]), ('aas', [[['ab'], ['c']]]), ('a(s)', [[['abc'], ['d']]]),
+              ('a{ss}', [{'k': 'vv', 'l': 'w'}]), ('say', ['abc', [1, 2, 3]]), ('a(ys)', [[[1, 'ab'], [2, 'c']]]), ('ao', [['/a', '/bc']])]
+
+
+def length_fields(sig, values, little):
+    """(wire bytes, offsets of the 4-byte length fields) of the reference encoding."""
+    from ..ref_sig import ALIGN, split, fields, INT_SIZE
+    from .. import ref_codec
+    offs = []
+
+    def walk(ct, v, off):
+        c = ct[0]
+        off += (-off) % ALIGN[c]
+        if c in INT_SIZE:
+            return off + INT_SIZE[c]
+        if c in 'bh':
+            return off + 4
+        if c == 'd':
+            return off + 8
+        if c in 'so':
+            offs.append(off)
+            return off + 4 + len(v.encode('utf-8')) + 1
+        if c == 'g':
+            return off + 1 + len(v) + 1
+        if c == 'a':
+            offs.append(off)
+            off += 4
+            et = ct[1:]
+            off += (-off) % ALIGN[et[0]]
+            items = list(v.items()) if isinstance(v, dict) else list(v)
+            for it in items:
+                off = walk(et, it, off)
+            return off
+        if c in '({':
+            for ft, fv in zip(fields(ct), v):
+                off = walk(ft, fv, off)
+            return off
+        raise ValueError(ct)
+    off = 0
+    for ct, v in zip(split(sig), values):
+        off = walk(ct, v, off)
+    wire = ref_codec.encode(sig, values, 0, little)
+    assert len(wire) == off
+    return wire, offs
 
 
 class Budget(Exception):
@@ -104,10 +150,11 @@ def obligations(tier):
     obs = []
     nbytes = 10 if tier == 'quick' else 14
     orders = [True] if tier == 'quick' else [True, False]
+    BE_QUICK = {'as', 'aas', 's', 'ay', 'aay', 'ai', 'a(y)', 'a{sv}', 'a{yay}', 'ag', 'a()', 'ax', 'o', 'a(ay)'}
     for i, sig in enumerate(HOSTILE):
         if 'v' in sig:
             continue            # symbolic variant signatures do not finish: see the var family
-        for le in orders:
+        for le in ([True, False] if (tier == 'quick' and sig in BE_QUICK) else orders):
             to = 180 if tier == 'quick' else 900
             nb = nbytes
             if 'g' in sig:
@@ -115,6 +162,23 @@ def obligations(tier):
             obs.append(Ob('unm:%d:%s:%s:n%d' % (i, sig[:14], 'le' if le else 'be', nb), 'unm',
                           {'sig': sig, 'n': nb, 'le': le}, timeout=to, path_timeout=30, twin=(i % 4 == 0),
                           functions=FUNCS[:6], bounds='%d symbolic bytes' % nbytes))
+    import itertools
+    for i, (sig, vals) in enumerate(LENS_CASES):
+        nf = len(length_fields(sig, vals, True)[1])
+        if nf <= 3:
+            subsets = [list(range(nf))]
+        elif tier == 'quick':
+            continue
+        else:
+            subsets = [list(c) for c in itertools.combinations(range(nf), 3)]
+        if tier == 'quick' and i not in (0, 3, 5):
+            continue
+        for sub in subsets:
+            for le in (True, False):
+                obs.append(Ob('lens:%d:%s:%s:%s' % (i, sig, ''.join(map(str, sub)), 'le' if le else 'be'), 'lens',
+                              {'case': i, 'le': le, 'sub': sub}, timeout=900, path_timeout=60, twin=(le and i == 5),
+                              functions=FUNCS[:6],
+                              bounds='up to 3 of the 4-byte array/string length fields of a valid encoding replaced by symbolic u32 values; contents concrete'))
     for i, vs in enumerate(VARIANT_SIGS):
         obs.append(Ob('var:%d:%s' % (i, vs), 'var', {'vsig': vs, 'n': 6}, timeout=120, path_timeout=30,
                       twin=True, functions=FUNCS[:6], bounds='variant signature concrete (hostile family), 6 symbolic bytes after it'))
@@ -155,6 +219,38 @@ def build(family, p):
         wit = [tuple([0] * n), tuple([255] * n), tuple(([1, 0, 0, 0] + [0] * n)[:n]), tuple(([8, 0, 0, 0] + [1] * n)[:n]),
                tuple(([0, 0, 0, 8] + [0] * n)[:n]), tuple(([4, 0, 0, 0, 1, 97, 0, 0] + [0] * n)[:n])]
         return Spec(h, [('data', T)], witnesses=[(w,) for w in wit])
+
+    if family == 'lens':
+        sig, vals = LENS_CASES[p['case']]
+        le = p['le']
+        wire, offs = length_fields(sig, vals, le)
+        offs = [offs[k] for k in p['sub']]
+        nf = len(offs)
+
+        def h(*lens):
+            for v in lens:
+                assume(0 <= v < 2 ** 32)
+            parts = []
+            last = 0
+            for o, v in zip(offs, lens):
+                parts.append(wire[last:o])
+                parts.append(v.to_bytes(4, 'little' if le else 'big'))
+                last = o + 4
+            parts.append(wire[last:])
+            raw = b''.join(parts)
+            with Counter(marshal, limit(len(wire), len(sig))) as c:
+                try:
+                    marshal.unmarshal(sig, raw, 0, le, [])
+                except Budget:
+                    raise Violation('decoder exceeded its step budget with lying length fields')
+                except Exception:
+                    pass
+            reached()
+        h.__name__ = 'lens'
+        honest = tuple(int.from_bytes(wire[o:o + 4], 'little' if le else 'big') for o in offs)
+        wit = [honest, tuple([0] * nf), tuple([2 ** 32 - 1] * nf), tuple([2 ** 31] * nf),
+               tuple((2 ** 32 - 13 + i) for i in range(nf)), tuple([honest[0]] + [2 ** 32 - 13] * (nf - 1))]
+        return Spec(h, [('l%d' % i, int) for i in range(nf)], witnesses=wit)
 
     if family == 'var':
         vsig, n = p['vsig'], p['n']
